@@ -13,22 +13,26 @@ open PV PV.Model.Ndp PV.Model.Icmp6Hunt PV.Spec.NdpWire PV.Lemmas.NdpExact PV.Le
 
 /-! ### confinement of the forged advertisements -/
 
-/-- **A forged NA is written only by a loop that passed its check in this iteration, only with a
-    learned router's address, and only after a router was learned.**  On every trace: whenever
-    `send i r` is enabled, a default router exists, `r` is the address of a learned router, and the
-    destination MAC is one for which a StartHunt was accepted. -/
+/-- **A forged NA is written only to a host that is in the hunt list at the moment of the write, only
+    with a learned router's address, and only after a router was learned.**  On every trace: whenever
+    `send i r` is enabled, the destination MAC is in the hunt list and the handler is open (the loop
+    holds the handler mutex since its check, so neither can have changed), a default router exists,
+    `r` is the address of a learned router, and a StartHunt for that MAC was accepted. -/
 theorem na_only_to_hunted_after_router (tr : List Event) (s : State) (os : List Out)
     (hr : run {} tr = some (s, os)) (i : Nat) (r : Bytes) (s' : State) (o : Out)
     (hs : step s (.send i r) = some (s', o)) :
-    o = .na (s.loops i).mac r ∧ s.defaultRouter.isSome = true ∧ r ∈ keys s ∧ (s.loops i).mac ∈ s.started := by
+    o = .na (s.loops i).mac r ∧ s.defaultRouter.isSome = true ∧ r ∈ keys s ∧ (s.loops i).mac ∈ s.started ∧
+      (s.loops i).mac ∈ s.hunt ∧ s.closed = false := by
   have hI := inv_run inv_init hr
+  have hH := sendHunted_run inv_init sendHunted_init hr
   simp only [step] at hs
   split at hs
   · rename_i p hp
     split at hs
     · rename_i hrp
       obtain ⟨a, _, c⟩ := hI.sendOK i p hp
-      split at hs <;> (cases hs; exact ⟨rfl, a, c r hrp, hI.started i (by rw [hp]; simp)⟩)
+      obtain ⟨hm, hc⟩ := hH i p hp
+      split at hs <;> (cases hs; exact ⟨rfl, a, c r hrp, hI.started i (by rw [hp]; simp), hm, hc⟩)
     · cases hs
   · cases hs
 
@@ -230,6 +234,65 @@ theorem no_na_after_close : no_na_after_close_full := by
     exact quiet_run post mac { s0 with closed := true } s os2
       ⟨Or.inr rfl, fun i _ p => free_no_send hI hf i p⟩ (Or.inl rfl) r2
   · cases hs
+
+/-- **What `no_na_after_stop` is about: an EFFECTIVE StopHunt.**  `StopHunt(addr)` with a valid address that
+    is not link-local unicast (every IPv4 and every global address) returns `StageNoChange` before touching
+    the list – exactly as `StartHunt` "ignores non-link-local targets" (`startHunt_rejects_v4_ignores_non_lla`).
+    Such a call is a no-op of the machine, whatever the MAC: a host hunted address-less or by its link-local
+    address stays hunted.  The clause "after StopHunt … no further forged advertisement" is proved for the
+    StopHunt calls the handler acts on (no address, or a link-local address: `eff = true`), keyed on the MAC. -/
+theorem stopHunt_ineffective_is_noop (s : State) (mac : Bytes) : step s (.stopHunt mac false) = some (s, .none) := by
+  simp [step]
+
+/-! ### liveness side: what is enabled ("periodically while hunted")
+
+  Wall-clock time is outside the machine (the 2–2.8 s `select` is the `wake` transition, measured by the
+  harness: no silence longer than one cycle + slack while hunted and a router is known).  What the machine
+  says is that nothing but the timer and the mutex stands between a hunted loop and its batch: -/
+
+/-- a hunted loop at its check with the mutex free and a router learned takes the mutex for a batch holding
+    every learned router's address -/
+theorem hunted_loop_sends_at_next_check (s : State) (i : Nat) (hc : (s.loops i).pc = .check) (hf : s.holder = none)
+    (hh : (s.loops i).mac ∈ s.hunt) (hopen : s.closed = false) (hd : s.defaultRouter.isSome = true)
+    (hr : s.routers ≠ []) :
+    ∃ s1, step s (.check i) = some (s1, .none) ∧ (s1.loops i).pc = .send (keys s) ∧ s1.holder = some i := by
+  have hk : s.routers.map (·.1) ≠ [] := by
+    intro h; apply hr; exact List.map_eq_nil_iff.1 h
+  refine ⟨{ s with loops := updLoop s.loops i { s.loops i with pc := .send (keys s) }, holder := some i }, ?_, by simp, rfl⟩
+  simp only [step, hc, free, hf, and_self, if_true, hh, hopen, not_true_eq_false, Bool.false_eq_true, or_self, if_false, hd]
+  unfold keys
+  first
+    | rfl
+    | (split
+       · rename_i heq; exact absurd heq hk
+       · rfl)
+
+/-- **no live loop is ever stuck** in a reachable state: a waiting loop can be woken, a loop at its check can
+    run it as soon as the mutex is free, and a loop in its batch can write each pending advertisement (to
+    its own MAC, with that router's address); the batch shrinks with every write and the last one
+    releases the mutex – so StopHunt, Close, StartHunt and the RA path always get their turn -/
+theorem live_loop_can_step (tr : List Event) (s : State) (os : List Out) (hr : run {} tr = some (s, os)) (i : Nat) :
+    ((s.loops i).pc = .wait → (step s (.wake i)).isSome) ∧
+    ((s.loops i).pc = .check → s.holder = none → (step s (.check i)).isSome) ∧
+    (∀ p, (s.loops i).pc = .send p → p ≠ [] ∧ ∀ r ∈ p, ∃ s', step s (.send i r) = some (s', .na (s.loops i).mac r) ∧
+      ((p.erase r = [] ∧ (s'.loops i).pc = .wait ∧ s'.holder = none) ∨
+        (p.erase r ≠ [] ∧ (s'.loops i).pc = .send (p.erase r) ∧ (p.erase r).length < p.length))) := by
+  have hI := inv_run inv_init hr
+  refine ⟨fun h => by simp [step, h], fun h hf => ?_, fun p hp => ⟨(hI.sendOK i p hp).2.1, fun r hr' => ?_⟩⟩
+  · simp only [step, h, free, hf, and_self, if_true]
+    split
+    · rfl
+    · split
+      · split <;> rfl
+      · rfl
+  · by_cases he : (p.erase r).isEmpty = true
+    · refine ⟨{ s with loops := updLoop s.loops i { s.loops i with pc := .wait }, holder := none },
+        by simp [step, hp, hr', he], Or.inl ⟨by simpa using he, by simp, rfl⟩⟩
+    · refine ⟨{ s with loops := updLoop s.loops i { s.loops i with pc := .send (p.erase r) } },
+        by simp [step, hp, hr', he], Or.inr ⟨by simpa using he, by simp, ?_⟩⟩
+      rw [List.length_erase_of_mem hr']
+      have := List.length_pos_of_mem hr'
+      omega
 
 def witnessMac : Bytes := [2, 0xaa, 0, 0, 0, 7]
 def witnessRouter : Bytes := [0xfe, 0x80, 0, 0, 0, 0, 0, 0, 0, 0, 0, 0, 0, 0, 0, 0x11]
